@@ -17,7 +17,7 @@ use asn1rs::prelude::*;
 pub static DDE_DESCRIPTIONS: std::sync::atomic::AtomicU64 = std::sync::atomic::AtomicU64::new(0);
 
 pub const ALLOC_BASE: usize = 32 << 20;
-pub const ALLOC_PER_INPUT_BYTE: usize = 8192;
+pub const ALLOC_PER_INPUT_BYTE: usize = 32768;
 
 pub fn run(ctx: &mut RunCtx<'_>) -> Option<Violation> {
     let family = ctx.ch.draw(0, 10);
@@ -227,7 +227,7 @@ fn evaluate(ctx: &mut RunCtx<'_>, bytes: &[u8], bit_len: usize, plan: &[usize], 
             if at.largest_alloc > budget || at.peak_alloc > budget {
                 return Err(Violation {
                     signature: format!("C04/O3-alloc-budget/uper/type={}", ops.name),
-                    detail: format!("reading {} from {} input bytes requested {} bytes at once / {} bytes live (budget {} = 32 MiB + 8192 x input bytes)", ops.name, input_bytes, at.largest_alloc, at.peak_alloc, budget),
+                    detail: format!("reading {} from {} input bytes requested {} bytes at once / {} bytes live (budget {} = 32 MiB + 32768 x input bytes)", ops.name, input_bytes, at.largest_alloc, at.peak_alloc, budget),
                 });
             }
             // O4 no success past the declared length
@@ -287,7 +287,7 @@ pub fn run_uper(ctx: &mut RunCtx<'_>, outcomes_only: bool) -> Option<Violation> 
     let z = zoo();
     let lifted: Vec<String> = ctx.lifted.to_vec();
     let is_lifted = move |f: &str| lifted.iter().any(|l| l == f || l == "all");
-    let types: Vec<usize> = (0..z.types.len()).collect();
+    let types: Vec<usize> = z.without_flag(F_ZEROAMP);
 
     let (k, cfg, nfaults, enabled, xtype) = {
         let mut l0 = Lane::new(ctx.ch, 0);
